@@ -4,7 +4,8 @@ import OtelVerif.Model.Span
 
   span <procs> <res> <scope> <name> <kind> <sys> <steady> <attrs> <links> ; <op> ; <op> …
     procs  : string over {s,b} (simple / batch), 1–8 processors, in registration order
-    res    : hex tag of the provider's resource;  scope : <namehex>/<versionhex>/<schemahex>
+    res    : hex tag of the provider's resource;  scope : <namehex>/<versionhex>/<schemahex>[/<attrs>[/<decoy attrs>]] (the
+             bracketed parts: engine `span2` only, scope attributes; printed as `scope=<n>/<v>/<s>[…]`)
     kind   : 0..4;  sys, steady : StartSpanOptions times in ns (0 = not given)
     links  : -  |  <tid 32hex>/<sid 16hex>/<flags 2hex>/<attrs> joined by `|`
     op     : [@<thread>] attr <key> <value> | ev <name> | evt <name> <ts> | eva <name> <attrs> | evta <name> <ts> <attrs>
@@ -28,6 +29,7 @@ def showLink (l : Link) : String := hexArg l.traceId ++ "/" ++ hexArg l.spanId +
 def showScope : Option Scope → String
   | none => "null"
   | some s => hexArg s.name ++ "/" ++ hexArg s.version ++ "/" ++ hexArg s.schema
+      ++ (match s.attrs with | none => "" | some m => showMap m)
 
 /-- stable grouping of the events by the first byte of their name (cases with a concurrent section) -/
 def groupEvents (es : List Event) : List Event :=
@@ -52,9 +54,19 @@ def parseProcs (s : String) : Option (List ProcKind) :=
   if cs.isEmpty || cs.length > 8 then none else
   cs.mapM fun c => if c = 's' then some ProcKind.simple else if c = 'b' then some ProcKind.batch else none
 
-def parseScope (s : String) : Option Scope :=
+/-- `<name>/<version>/<schema>`; engine `span2` also `<name>/<version>/<schema>/<attrs>[/<decoy attrs>]`: the tracer is
+    requested with scope attributes (after a request for the same name / version / schema with the decoy attributes, whose
+    tracer is not used: if the provider took the two requests for the same scope, the decoy's attributes would be exported) -/
+def parseScope (v2 : Bool) (s : String) : Option Scope :=
   match s.splitOn "/" with
-  | [n, v, u] => do pure ⟨← ofHexStr n, ← ofHexStr v, ← ofHexStr u⟩
+  | [n, v, u] => do pure ⟨← ofHexStr n, ← ofHexStr v, ← ofHexStr u, none⟩
+  | [n, v, u, a] => do
+    if !v2 then none
+    pure ⟨← ofHexStr n, ← ofHexStr v, ← ofHexStr u, some (Map.ofIterable (← parseAttrs a))⟩
+  | [n, v, u, a, d] => do
+    if !v2 then none
+    let _ ← parseAttrs d
+    pure ⟨← ofHexStr n, ← ofHexStr v, ← ofHexStr u, some (Map.ofIterable (← parseAttrs a))⟩
   | _ => none
 
 def parseLink (s : String) : Option (Bytes × Bytes × UInt8 × KVs) :=
@@ -72,11 +84,11 @@ def parseLink (s : String) : Option (Bytes × Bytes × UInt8 × KVs) :=
 def parseLinks (s : String) : Option (List (Bytes × Bytes × UInt8 × KVs)) :=
   if s = "-" then some [] else (s.splitOn "|").mapM parseLink
 
-def parseCfg : List String → Option Cfg
+def parseCfg (v2 : Bool) : List String → Option Cfg
   | [procs, res, scope, name, kind, sys, steady, attrs, links] => do
     let procs ← parseProcs procs
     let res ← ofHexStr res
-    let scope ← parseScope scope
+    let scope ← parseScope v2 scope
     let name ← ofHexStr name
     let kind ← parseNat kind
     if kind ≥ Gen.spanKindNames.length then none
@@ -144,7 +156,7 @@ def handleSpan (v2 : Bool) (toks : List String) : String :=
   match splitOps toks with
   | [] => "bad-op"
   | cfgToks :: opToks =>
-    match parseCfg cfgToks, opToks.mapM (parseOp v2) with
+    match parseCfg v2 cfgToks, opToks.mapM (parseOp v2) with
     | some cfg, some ops =>
       if !sectionsOk false ops then "bad-op" else
       let grouped := ops.any fun o => match o.2 with | .par => true | .seq => true | _ => false
